@@ -145,6 +145,30 @@ pub fn run_dist(base: &Arc<ExecutionContext>, sql: &str, parts: &[Participant], 
 
 /// Statements in all four distributed shapes.
 pub fn dist_stmt(rng: &mut Rng, db: &[Table]) -> GenQuery {
+    // two shapes the generic generator rarely lands on exactly:
+    // a paged Top-N whose page lies beyond one shard's first LIMIT rows ...
+    if rng.chance(1, 12) {
+        let t = rng.pick(db);
+        let (n, m) = (*rng.pick(&[1usize, 3, 5]), *rng.pick(&[1usize, 4, 10, 25]));
+        let desc = rng.bool();
+        let core = format!("SELECT r0.id AS c0, r0.i1 AS c1 FROM {} AS r0", t.name);
+        let mut q = GenQuery { sql: String::new(), full_sql: core.clone(), keys: vec![], limit: Some(n), offset: m, tags: vec!["order-by".into(), "limit".into(), "offset".into(), "paged-topn".into()], ncols: 2 };
+        q.sql = format!("{} ORDER BY c1{} NULLS LAST, c0 LIMIT {} OFFSET {}", core, if desc { " DESC" } else { "" }, n, m);
+        q.keys = vec![crate::canon::SortKey { col: 1, desc, nulls_first: false }, crate::canon::SortKey { col: 0, desc: false, nulls_first: false }];
+        return q;
+    }
+    // ... and an outer join whose null-supplying side is itself a join
+    if db.len() >= 2 && rng.chance(1, 12) {
+        let (a, b) = (&db[0], &db[1]);
+        let jt = *rng.pick(&["LEFT", "LEFT", "FULL"]);
+        let core = format!(
+            "SELECT d.id AS c0, x.k AS c1, x.w AS c2 FROM {a} AS d {jt} JOIN (SELECT l.i0 AS k, f.i1 AS w FROM {b} AS l JOIN {a} AS f ON l.id = f.id) AS x ON d.id = x.k",
+            a = a.name,
+            b = b.name,
+            jt = jt
+        );
+        return GenQuery { sql: core.clone(), full_sql: core, keys: vec![], limit: None, offset: 0, tags: vec![format!("{} JOIN", jt), "derived-join".into()], ncols: 3 };
+    }
     let mut f = Feats::all();
     f.cross_join = false;
     let mut g = G::new(rng, f);
